@@ -174,6 +174,7 @@ pub struct Node {
     granted_term: u64,
     deferred: Option<Vec<String>>,
     released_req_term: u64,
+    self_grant: Option<u64>, // term of a campaign of this incarnation whose self-vote is not yet released in P
     handed: u64, // last index handed out for apply in this incarnation
 }
 
@@ -319,7 +320,7 @@ impl Sim {
             let app = d.applied.clone();
             nodes.push(Node {
                 id, rn, store, durable: d, pending: vec![], p_pending: 0, app, app_hist: VecDeque::new(), incarnation: 0, cfg, member,
-                granted: BTreeSet::new(), granted_term: 0, deferred: None, released_req_term: 0, handed: 0,
+                granted: BTreeSet::new(), granted_term: 0, deferred: None, released_req_term: 0, self_grant: None, handed: 0,
             });
         }
         let header = format!(
@@ -444,6 +445,7 @@ impl Sim {
             self.pev(i, format!("campaign {}", id));
             self.nodes[i].granted.clear();
             self.nodes[i].granted_term = post.term;
+            self.nodes[i].self_grant = Some(post.term);
         }
         // a single-voter node may go follower -> candidate -> leader inside one call
         if post.state == StateRole::Leader && (pre.state != StateRole::Leader || !same_term) {
@@ -451,6 +453,7 @@ impl Sim {
                 self.pev(i, format!("campaign {}", id));
                 self.nodes[i].granted.clear();
                 self.nodes[i].granted_term = post.term;
+                self.nodes[i].self_grant = Some(post.term);
             }
             let mut q: Vec<u64> = self.nodes[i].granted.iter().cloned().collect();
             if let Some(m) = input {
@@ -785,6 +788,16 @@ impl Sim {
         let id = self.nodes[i].id;
         self.pev_now(format!("persist {} {}", id, n_images));
         self.nodes[i].p_pending -= n_images;
+        // the self-vote of a campaign is released (counts for `win`) once it is durable
+        if let Some(t) = self.nodes[i].self_grant {
+            let d = &self.nodes[i].durable.hs;
+            if d.term == t && d.vote == id {
+                self.nodes[i].self_grant = None;
+                self.pev_now(format!("release {} grant {} {} {}", id, t, id, id));
+            } else if d.term > t {
+                self.nodes[i].self_grant = None;
+            }
+        }
         // a leader whose self-vote has just become durable: admit its queued events now
         if self.nodes[i].deferred.is_some() && self.effective(i) {
             let q = self.nodes[i].deferred.take().unwrap();
@@ -947,6 +960,7 @@ impl Sim {
         self.nodes[i].pending.clear();
         self.nodes[i].p_pending = 0;
         self.nodes[i].deferred = None;
+        self.nodes[i].self_grant = None;
         self.pev_now(format!("crash {}", id));
         self.stat("crash");
     }
